@@ -1,4 +1,4 @@
-import Proofs.ClientC09g
+import Proofs.ClientAlloc
 /-
   Props/C09.lean — C09: the client keeps QoS ≥ 1 publishes until acknowledged; futures resolve
   truthfully and always; close/disconnect return; accessors are total.
@@ -8,7 +8,7 @@ import Proofs.ClientC09g
   property family (defects 9, 10+11, 14, 15) applied; `Cl.Fix.legacy` the code as it was found.
   Theorems that do not mention a `Fix` hold for every combination.
 -/
-open Cl Cl.St ClientK1
+open Cl Cl.St ClientK1 ClientK3
 namespace C09
 
 /-! ### stored before sent -/
@@ -50,6 +50,72 @@ theorem pubrec_replaces_by_pubrel {fx : Fix} {s s' : St} {l : Label} {id : UInt1
     (s.proc = .recSend id → stepProc fx s l = some s' →
       ∃ ok, l = .send .proc (.pubrel id) ok ∧ s'.out = s.out ++ [(.pubrel id, ok)]) :=
   ⟨fun h hp hne => step_enter_recSave h hp hne, fun hp h => pubrec_then_store hp h, fun hp h => pubrel_then_send hp h⟩
+
+/-! ### packet ids: an id that is still in use is not handed out (MQTT 3.1.1 §2.3.1) -/
+
+/-- The id a request is stored and sent under is not a key of the outgoing store at allocation
+    time: in every state, an exported method that needs a packet id reaches `Put` with `id` (from
+    where it registers its future, stores and sends its packet under that id, `id_kept_through_call`)
+    only through `LookupPacket(Outgoing, id)` finding nothing — no packet is stored under `id`, `id`
+    is the key of no entry — and that step leaves the session as it is. -/
+theorem fresh_id_unused {fx : Fix} {s s' : St} {l : Label} {r : Req} {id : UInt16}
+    (h : step fx s l = some s') (hp : s'.api = .rPut r id) (hne : s.api ≠ .rPut r id) (hn : r.needsID = true) :
+    (∃ n, s.api = .rLook r id n) ∧ l = .sLookup .outgoing id (.found none) ∧
+      s.sess.lookupPacket .outgoing id = none ∧ outAt s.sess id = none ∧
+      (∀ k p, (k, p) ∈ s.sess.outgoing.entries → k ≠ id) ∧ s'.sess = s.sess := by
+  obtain ⟨hs, hc⟩ := step_enter_rPut h hp hne
+  rcases hc with ⟨n, ha, hl, hk⟩ | ⟨_, _, hz⟩
+  · refine ⟨⟨n, ha⟩, hl, hk, by simp [outAt, hk], ?_, hs⟩
+    intro k p hm
+    exact PacketStore.not_mem_of_lookup_none (st := s.sess.outgoing) hk hm
+  · rw [hn] at hz; cases hz
+
+/-- From `Put` until it returns a call works with the request and the id it allocated: the packet
+    it stores (`rSave`) and hands to the connection (`rSend`) is `r.pkt id` for that id. -/
+theorem id_kept_through_call {fx : Fix} {s s' : St} {l : Label} {r : Req} {id : UInt16}
+    (h : step fx s l = some s') (hp : apiReq s'.api = some (r, id)) :
+    apiReq s.api = some (r, id) ∨ s'.api = .rPut r id :=
+  apiReq_step h hp
+
+/-- The loop of `Client.nextID`, run without interference and without a failing session operation,
+    is `MemorySession.freshID` (the allocator of the broker model, Proofs/SessionFresh): it ends at
+    `Put` with the id `freshID` computes, or — `freshID` = 0 — returns `ErrPacketIDsExhausted`. -/
+theorem allocation_is_freshID (fx : Fix) (r : Req) (s : St) (ha : s.api = .rID r 65535) :
+    ∃ s', run fx s (allocLabels 65535 s.sess) = some s' ∧ s'.sess = s.sess.freshID.2 ∧
+      (s.sess.freshID.1 ≠ 0 → s'.api = .rPut r s.sess.freshID.1) ∧
+      (s.sess.freshID.1 = 0 → s'.api = .ret .errExhausted) :=
+  alloc_run fx r 65534 s ha
+
+/-- … so the undisturbed allocation fails only when the session holds a packet for every id there
+    is (65535 stored outgoing packets) -/
+theorem exhausted_only_when_full (fx : Fix) (r : Req) (s : St) (ha : s.api = .rID r 65535)
+    (hlt : s.sess.outgoing.entries.length < 65535) :
+    ∃ s', run fx s (allocLabels 65535 s.sess) = some s' ∧ s'.api = .rPut r s.sess.freshID.1 ∧
+      s.sess.lookupPacket .outgoing s.sess.freshID.1 = none := by
+  obtain ⟨s', hr, _, h1, _⟩ := allocation_is_freshID fx r s ha
+  have hne := MemorySession.freshID_ne_zero_of_lt s.sess hlt
+  exact ⟨s', hr, h1 hne, MemorySession.freshID_unused s.sess hne⟩
+
+def cpk : Packet := .connect [99] 0 [] [] false none 4
+def msg1 : Message := ⟨[116], [109], 1, false⟩
+def pubA : Packet := .publish msg1 false 1
+
+/-- the situation after a wrap of the id counter: the counter is back at 1 while the PUBLISH sent
+    under id 1 is still unacknowledged -/
+def wrapped : St :=
+  { state := .connected, proc := .recv false, tombStarted := true, conn := .opened,
+    sess := { counter := ⟨1⟩, outgoing := ⟨[(1, pubA)]⟩ }, futs := [.pending], fstore := [(1, 0)], rets := [0] }
+
+/-- the repaired allocation steps over id 1: the new publish is stored and sent under id 2, the
+    unacknowledged one stays stored and its future stays pending (before `Client.nextID` the new
+    publish took id 1: `SavePacket` replaced the stored PUBLISH and `Put` cancelled its future —
+    reproduced on the real client by the `id-wrap` run of clienttrace) -/
+theorem id_reuse_repaired :
+    (run Fix.repaired wrapped [.aReq (.pub msg1), .tau .api, .sNextID 1, .sLookup .outgoing 1 (.found (some pubA)),
+      .sNextID 2, .sLookup .outgoing 2 (.found none), .tau .api, .tau .api,
+      .sSave .api .outgoing (.publish msg1 false 2) true, .send .api (.publish msg1 false 2) true, .aRet .fut]).map
+      (fun s => (s.sess.allPackets .outgoing, s.futs, s.fstore)) =
+      some ([pubA, .publish msg1 false 2], [.pending, .pending], [(1, 0), (2, 1)]) := by decide
 
 /-! ### retransmission after CONNACK -/
 
@@ -97,9 +163,13 @@ theorem future_truthful {fx : Fix} {s s' : St} {tr : List Label} {l : Label} {i 
     client is `disconnected`, no exported method is running and the processor is not running, no
     future that was ever created (the connect future included) is pending.
 
-    Hypotheses of `Reach1` (`Well`): no keep-alive pinger (see `all_resolved_pinger_fails`), and
-    the id handed out by `NextID` is not in the future store nor the id whose acknowledgement is
-    being finished (fewer than 65535 requests in flight). -/
+    Hypotheses of `Reach1` (`Well`): no keep-alive pinger (see `all_resolved_at_end_full_fails`), and
+    the id `Client.nextID` settles on is not in the *future* store nor the id whose acknowledgement
+    is being finished (fewer than 65535 requests in flight).  Since `Client.nextID` steps over ids
+    with a stored packet (`fresh_id_unused`) this is required only of the id the allocation ends
+    with, no longer of every id `NextID` returns; it cannot be dropped: the future store is not the
+    packet store (SUBSCRIBE / UNSUBSCRIBE are never stored in the session, and `processSuback` & co.
+    read and delete their future-store entry in two steps). -/
 theorem all_resolved_at_end_partial {fx : Fix} {s : St} (hfx : FixOK fx) (hr : Reach1 fx s)
     (hst : s.state = .disconnected) (hapi : s.api = .idle)
     (hproc : s.proc = .notStarted ∨ ∃ b, s.proc = .exited b) :
@@ -111,8 +181,6 @@ def all_resolved_at_end_full : Prop :=
   ∀ s : St, Reach Fix.repaired s → s.api = .idle → (∃ b, s.proc = .exited b) →
     (s.ping = .notStarted ∨ s.ping = .exited) → ∀ h : Nat, s.futs[h]? ≠ some FSt.pending
 
-def cpk : Packet := .connect [99] 0 [] [] false none 4
-def msg1 : Message := ⟨[116], [109], 1, false⟩
 
 /-- defect 14 (`Fix.legacy`): `Publish` passes its state check, the connection is lost and
     `cleanup` clears the future store, then `Publish` registers its future and sends into the
@@ -122,7 +190,8 @@ def race14 : List Label :=
    .recv (.connack false 0), .tau .proc, .tau .proc, .tau .proc, .tau .proc, .sAll true, .tau .proc,
    .aReq (.pub msg1), .tau .api,
    .recvErr, .tau .proc, .tau .proc, .tau .proc, .tau .proc, .tau .proc, .cbErr .proc,
-   .sNextID 1, .tau .api, .sSave .api .outgoing (.publish msg1 false 1) true, .send .api (.publish msg1 false 1) true,
+   .sNextID 1, .sLookup .outgoing 1 (.found none), .tau .api,
+   .sSave .api .outgoing (.publish msg1 false 1) true, .send .api (.publish msg1 false 1) true,
    .aRet .fut]
 
 /-- the code as it was found leaves the caller with `err == nil` and a future nobody resolves -/
@@ -133,7 +202,7 @@ theorem legacy_race_leaves_pending :
 /-- the same interleaving against the repaired code: the call returns `ErrClientNotConnected`
     and its future is cancelled -/
 theorem repaired_race_cancels :
-    (run Fix.repaired {} (race14.take 25 ++ [.tau .api, .aRet .errNotConnected])).map
+    (run Fix.repaired {} (race14.take 26 ++ [.tau .api, .aRet .errNotConnected])).map
       (fun s => (s.state, s.api, s.proc, s.futs[1]?)) =
       some (.disconnected, .idle, .exited true, some (.cancelled .nil)) := by decide
 
@@ -148,7 +217,7 @@ def racePinger : List Label :=
    .recv (.connack false 0), .tau .proc,
    .kMissing, .tau .ping, .tau .ping, .tau .ping, .close .ping true, .tau .ping, .cbErr .ping,
    .tau .proc, .tau .proc, .tau .proc, .sAll true, .tau .proc,
-   .aReq (.pub msg1), .tau .api, .sNextID 1, .tau .api, .tau .api,
+   .aReq (.pub msg1), .tau .api, .sNextID 1, .sLookup .outgoing 1 (.found none), .tau .api, .tau .api,
    .sSave .api .outgoing (.publish msg1 false 1) true, .send .api (.publish msg1 false 1) true, .aRet .fut,
    .recvErr, .tau .proc, .tau .proc, .tau .proc]
 
@@ -170,9 +239,9 @@ theorem all_resolved_at_end_full_fails : ¬ all_resolved_at_end_full := by
     in which a publish raced the loss of the connection (and its future is cancelled) -/
 example : ∃ s : St, Reach1 Fix.repaired s ∧ s.state = .disconnected ∧ s.api = .idle ∧
     (∃ b, s.proc = .exited b) ∧ s.futs.length = 2 := by
-  have hrun : (run1 Fix.repaired {} (race14.take 25 ++ [.tau .api, .aRet .errNotConnected])).isSome = true := by decide
+  have hrun : (run1 Fix.repaired {} (race14.take 26 ++ [.tau .api, .aRet .errNotConnected])).isSome = true := by decide
   obtain ⟨s, hs⟩ := Option.isSome_iff_exists.mp hrun
-  have ho : (run1 Fix.repaired {} (race14.take 25 ++ [.tau .api, .aRet .errNotConnected])).map
+  have ho : (run1 Fix.repaired {} (race14.take 26 ++ [.tau .api, .aRet .errNotConnected])).map
       (fun s => (s.state, s.api, s.proc, s.futs.length)) = some (.disconnected, .idle, .exited true, 2) := by decide
   rw [hs] at ho
   simp at ho
